@@ -15,6 +15,7 @@ CHECKS = {
     "C05": "pprops",
     "C12": "pprops",
     "C13": "pprops",
+    "C16": "c16",
     "C07": "c07",
     "C08": "c08",
     "C09": "c09",
